@@ -572,6 +572,11 @@ def correspondence(ctx):
             radius = rng.randint(1, 3) * (1.0 if rel else rng.choice(es)) + rng.choice([0.0, 1e-12, -1e-12, 1e-10, 2e-10])
         else:
             radius = rng.uniform(0.3, 3.0 * L)
+        if not rel and rng.random() < 0.3:
+            # the same filter in other length units (exact power-of-two factor on element sizes AND radius): same kernel
+            fu = 2.0 ** rng.choice([-33, -30, -20, 20])
+            es, radius = [v * fu for v in es], radius * fu
+            ctx.branch("radius.absolute.rescaled_units")
         ds = [1.0, 1.0, 1.0] if rel else es
         if any(near_multiple(radius, d) for d in ds):
             ctx.skipped_boundary += 1
